@@ -7,6 +7,7 @@ CONSTANTS
   MaxK = 2
   Feats = {"val", "cache", "use"}
   AsCoded = FALSE
+  Extra = TRUE
   Forget = {}
 INVARIANT TypeOK
 INVARIANT OutcomeIsFunctionOfInputs
